@@ -1,0 +1,20 @@
+//go:build verif
+
+package primev
+
+import (
+	"github.com/jackc/pgx/v4/pgxpool"
+
+	"github.com/shutter-network/rolling-shutter/rolling-shutter/keyper/epochkghandler"
+	"github.com/shutter-network/rolling-shutter/rolling-shutter/medley/broker"
+	"github.com/shutter-network/rolling-shutter/rolling-shutter/p2p"
+)
+
+// VerifNewCommitmentHandler returns the commitment handler the way Start builds it.
+func VerifNewCommitmentHandler(
+	c *Config,
+	triggers chan *broker.Event[*epochkghandler.DecryptionTrigger],
+	dbpool *pgxpool.Pool,
+) p2p.MessageHandler {
+	return &PrimevCommitmentHandler{config: c, decryptionTriggerChannel: triggers, dbpool: dbpool}
+}
